@@ -16,6 +16,7 @@ from io import BytesIO
 from vlib import jsonx, vc2util
 from vlib.worker import OutOfScope
 from vlib.gen import corpus as corpus_mod
+from vlib.gen import degenerate
 from vlib.gen import mutate
 
 PROPERTY = "C06"
@@ -26,7 +27,9 @@ TECHNIQUE = (
 )
 RULE = (
     "candidate = one byte string: every corpus seed (valid streams + conformant variants: padding/auxiliary units, repeated "
-    "headers, prefix bytes, random slice padding bits, absent next offsets, several sequences) and vlib.gen.mutate.random_case "
+    "headers, prefix bytes, random slice padding bits, absent next offsets, several sequences), 121 streams packed bit by bit by "
+    "vlib.gen.degenerate without repository code (LD pictures/fragments whose slice_bytes ratio gives slices of 0 or 1 bytes, i.e. "
+    "negative-length bounded blocks; HQ slices with all lengths 0 or scaler 0; grids 1x1..4x3) and vlib.gen.mutate.random_case on both pools "
     "(byte-level, field-level without autofill, coordinated unit operators); a candidate is an evaluation only if it parses "
     "to completion (Deserialiser context manager exits cleanly and the reader is at end of stream); distinct = distinct byte "
     "string; candidates identical to a corpus seed are trivial"
@@ -47,7 +50,7 @@ _MON = {"guard": None}
 
 # features that a conformant stream may carry (the encoder itself relies on
 # implicit 1-bits beyond the end of a bounded block)
-LEGAL_FEATURES = {"values_beyond_bounded_block", "nonzero_padding_bits"}
+LEGAL_FEATURES = {"values_beyond_bounded_block", "nonzero_padding_bits", "hq_slice_all_lengths_0"}
 KNOWN_CODES = (0x00, 0x10, 0x20, 0x30, 0xC8, 0xE8, 0xCC, 0xEC)
 
 
@@ -78,8 +81,20 @@ def cases(spec, ctx):
     for j, (label, data) in enumerate(corp):
         if j % nsh == shard:
             yield {"data": data, "op": "seed", "seed": label}
+    # hand-packed (no repository code) streams with zero-/negative-length bounded blocks
+    degen = degenerate.degenerate_streams()
+    for j, (label, data) in enumerate(degen):
+        if j % nsh == shard:
+            yield {"data": data, "op": "d:hand-packed", "seed": label}
     for i in range(spec["n_random"]):
-        yield mutate.random_case(corp, ctx.rng)
+        if i % 8 == 7:
+            # mutants of the hand-packed streams (field-level ones pass through the
+            # repository's Serialiser as a *generator*; the unmutated ones above do not)
+            c = mutate.random_case(degen, ctx.rng)
+            c["op"] = "d:" + c["op"]
+            yield c
+        else:
+            yield mutate.random_case(corp, ctx.rng)
 
 
 # --------------------------------------------------------------------------
@@ -176,7 +191,11 @@ def features(ctx):
             if td is not None:
                 st = td.get("_state") or {}
                 scaler = st.get("slice_size_scaler", 1) or 0
+                if scaler == 0 and td.get("hq_slices"):
+                    f.add("hq_slice_size_scaler_0")
                 for s in td.get("hq_slices", ()):
+                    if all(s.get("slice_%s_length" % c, 0) == 0 for c in ("y", "c1", "c2")):
+                        f.add("hq_slice_all_lengths_0")
                     for c in ("y", "c1", "c2"):
                         used = sum(_sint_bits(v) for v in s.get("%s_transform" % c, ()))
                         if used > 8 * scaler * s.get("slice_%s_length" % c, 0):
@@ -188,6 +207,12 @@ def features(ctx):
 
                         nb = 8 * slice_bytes(st, s["_sx"], s["_sy"])
                         left = nb - 7 - intlog2(nb - 7)
+                        if nb == 0:
+                            f.add("ld_slice_of_0_bytes")
+                        elif nb == 8:
+                            f.add("ld_slice_of_1_byte")
+                        if left < 0:
+                            f.add("negative_length_bounded_block")
                         if s.get("slice_y_length", 0) > left:
                             f.add("clamped_slice_y_length")
                         y_len = min(s.get("slice_y_length", 0), left)
@@ -269,6 +294,8 @@ def run_case(case, ctx):
     op = case.get("op", "?")
     ctx.count("candidates")
     fam = op.split("|")[0].split(":")[0]
+    if op == "d:hand-packed":
+        fam = "hand-packed"
     ctx.count("candidates:" + fam)
     try:
         desc, eof = vc2util.deserialise(data)
@@ -361,12 +388,16 @@ def floor(agg, tier):
         miss.append("fewer than %d candidates parsed to completion (%d)" % (need, c.get("parsed_to_completion", 0)))
     if c.get("not_parsed", 0) < (2000 if q else 100000):
         miss.append("suspiciously few candidates failed to parse (%d)" % c.get("not_parsed", 0))
-    for fam in ("b", "f", "c", "seed"):
+    nd = len(degenerate.degenerate_streams())
+    if c.get("parsed:hand-packed", 0) != nd:
+        miss.append("only %d of the %d hand-packed degenerate-block streams parsed to completion" % (c.get("parsed:hand-packed", 0), nd))
+    for fam in ("b", "f", "c", "seed", "d"):
         if c.get("parsed:" + fam, 0) < (50 if q else 1000):
             miss.append("too few parsed candidates from family %s (%d)" % (fam, c.get("parsed:" + fam, 0)))
     for feat in ("bad_prefix", "unknown_parse_code", "next_offset_1_to_12", "inconsistent_next_offset",
                  "inconsistent_previous_offset", "out_of_range_index", "values_beyond_bounded_block",
-                 "nonzero_padding_bits", "clamped_slice_y_length", "none"):
+                 "nonzero_padding_bits", "clamped_slice_y_length", "ld_slice_of_0_bytes", "ld_slice_of_1_byte",
+                 "negative_length_bounded_block", "hq_slice_size_scaler_0", "hq_slice_all_lengths_0", "none"):
         if c.get("feature:" + feat, 0) < (10 if q else 200):
             miss.append("feature %s present in only %d parsed candidates" % (feat, c.get("feature:" + feat, 0)))
     if c.get("guard_calls", 0) == 0:
